@@ -159,6 +159,35 @@ impl Shadow {
         None
     }
 
+    /// If a file of `dir` holds exactly what another file written through the VFS holds (and that
+    /// other file is gone), the code renamed it into place outside the VFS. Returns (from, to, what
+    /// of `from` was durable when it was renamed: its last synced content).
+    pub fn renamed_into_place(&self, dir: &Path) -> Option<(String, String, Option<Vec<u8>>)> {
+        // exactly one file the VFS created is gone without a VFS delete, and exactly one file on disk
+        // is not what the recorded writes produce
+        let gone: Vec<(&String, &FileModel)> = self.files.iter().filter(|(n, f)| f.exists && !Path::new(n.as_str()).exists()).collect();
+        let mut odd: Vec<String> = vec![];
+        for e in std::fs::read_dir(dir).ok()?.flatten() {
+            if !e.file_type().map(|t| t.is_file()).unwrap_or(false) {
+                continue;
+            }
+            let name = e.path().to_string_lossy().to_string();
+            if !tracked(&name) {
+                continue;
+            }
+            let Ok(d) = std::fs::read(e.path()) else { continue };
+            let explained = self.files.iter().any(|(n, f)| short(n) == short(&name) && f.exists && f.cur == d);
+            if !explained {
+                odd.push(name);
+            }
+        }
+        if gone.len() == 1 && odd.len() == 1 {
+            let (n, f) = gone[0];
+            return Some((short(n).to_string(), short(&odd[0]).to_string(), f.durable.clone()));
+        }
+        None
+    }
+
     /// What the OS shows after a process crash (all writes so far; page cache intact).
     pub fn process_image(&self) -> Image {
         let mut im = Image::default();
